@@ -324,13 +324,45 @@ def _infer_kind(cells):
 
 class ndarray(object):
     __array_priority__ = 0
-    __slots__ = ('shape', 'dtype', '_d')
+    __slots__ = ('shape', 'dtype', '_buf', '_idx')
 
-    def __init__(self, shape, dt, data):
+    def __init__(self, shape, dt, data, idx=None):
+        """data: flat cell list (the buffer).  idx: None for an array that owns its buffer, else the
+        positions of this *view*'s cells in the shared buffer (NumPy view semantics for basic slicing,
+        transpose, reshape of contiguous data, squeeze, newaxis)"""
         self.shape = tuple(shape)
         self.dtype = dtype(dt)
-        self._d = data
-        assert len(data) == _prod(self.shape), (shape, len(data))
+        self._buf = data
+        self._idx = idx
+        assert (len(data) if idx is None else len(idx)) == _prod(self.shape), (shape, len(data))
+
+    @property
+    def _d(self):
+        if self._idx is None:
+            return self._buf
+        b = self._buf
+        return [b[i] for i in self._idx]
+
+    def _set(self, i, v):
+        if self._idx is None:
+            self._buf[i] = v
+        else:
+            self._buf[self._idx[i]] = v
+
+    def _view(self, shape, src):
+        """view on the cells at flat positions `src` of this array"""
+        if self._idx is not None:
+            ix = self._idx
+            src = [ix[i] for i in src]
+        return ndarray(shape, self.dtype, self._buf, list(src))
+
+    def _contiguous(self):
+        ix = self._idx
+        return ix is None or builtins.all(ix[k] + 1 == ix[k + 1] for k in range(len(ix) - 1))
+
+    @property
+    def base(self):
+        return None if self._idx is None else self._buf
 
     # -- basic attributes
     @property
@@ -372,10 +404,11 @@ class ndarray(object):
 
     def tolist(self):
         st = _strides(self.shape)
+        d = self._d
 
         def rec(off, dim):
             if dim == len(self.shape):
-                return self._d[off]
+                return d[off]
             return [rec(off + i * st[dim], dim + 1) for i in range(self.shape[dim])]
         return rec(0, 0)
 
@@ -410,8 +443,8 @@ class ndarray(object):
 
     def fill(self, v):
         v = _cast_cell(v, self.dtype.kind)
-        for i in range(len(self._d)):
-            self._d[i] = v
+        for i in range(self.size):
+            self._set(i, v)
 
     def __bool__(self):
         if self.size != 1:
@@ -447,13 +480,16 @@ class ndarray(object):
 
     # -- indexing
     def __getitem__(self, key):
-        rshape, src, scalar = _index_map(self.shape, key)
+        rshape, src, scalar, view = _index_map(self.shape, key)
+        d = self._d
         if scalar:
-            return self._d[src[0]]
-        return ndarray(rshape, self.dtype, [self._d[i] for i in src])
+            return d[src[0]]
+        if view:
+            return self._view(rshape, src)
+        return ndarray(rshape, self.dtype, [d[i] for i in src])
 
     def __setitem__(self, key, value):
-        rshape, src, scalar = _index_map(self.shape, key)
+        rshape, src, scalar, view = _index_map(self.shape, key)
         kind = self.dtype.kind
         if kind == 'O':
             vshape, vflat = _discover(value, maxdims=len(rshape))
@@ -472,7 +508,7 @@ class ndarray(object):
                 raise ValueError("could not convert string to float")
             raise ValueError("invalid literal for int() with base 10")
         for i, v in zip(src, vals):
-            self._d[i] = _cast_cell(v, kind)
+            self._set(i, _cast_cell(v, kind))
 
     # -- shape manipulation
     def reshape(self, *shape, **kw):
@@ -490,11 +526,17 @@ class ndarray(object):
             shape = tuple(self.size // known if s == -1 else s for s in shape)
         if _prod(shape) != self.size:
             raise ValueError("cannot reshape array of size %d into shape %r" % (self.size, shape))
+        if self._contiguous():
+            return self._view(shape, range(self.size))
         return ndarray(shape, self.dtype, list(self._d))
 
     def ravel(self, order='C'):
+        if self._contiguous():
+            return self._view((self.size,), range(self.size))
         return ndarray((self.size,), self.dtype, list(self._d))
-    flatten = ravel
+
+    def flatten(self, order='C'):
+        return ndarray((self.size,), self.dtype, list(self._d))
 
     def transpose(self, *axes):
         if len(axes) == 1 and (axes[0] is None or isinstance(axes[0], (tuple, list))):
@@ -508,10 +550,10 @@ class ndarray(object):
             raise ValueError("repeated axis in transpose")
         nshape = tuple(self.shape[a] for a in axes)
         st = _strides(self.shape)
-        out = []
+        src = []
         for idx in itertools.product(*[range(n) for n in nshape]):
-            out.append(self._d[builtins.sum(idx[j] * st[axes[j]] for j in range(len(axes)))])
-        return ndarray(nshape, self.dtype, out)
+            src.append(builtins.sum(idx[j] * st[axes[j]] for j in range(len(axes))))
+        return self._view(nshape, src)
 
     def swapaxes(self, a1, a2):
         a1 = _norm_axis(a1, self.ndim)
@@ -530,7 +572,7 @@ class ndarray(object):
             if self.shape[axis] != 1:
                 raise ValueError("cannot select an axis to squeeze out which has size not equal to one")
             nshape = self.shape[:axis] + self.shape[axis + 1:]
-        return ndarray(nshape, self.dtype, list(self._d))
+        return self._view(nshape, range(self.size))
 
     def repeat(self, repeats, axis=None):
         if not isinstance(repeats, int):
@@ -596,13 +638,14 @@ class ndarray(object):
         rshape = pre + tuple(ishape) + post
         st = _strides(a.shape)
         out_ = []
+        ad = a._d
         posts = [builtins.sum(q[j] * st[axis + 1 + j] for j in range(len(post))) for q in itertools.product(*[range(s) for s in post])]
         for p in itertools.product(*[range(s) for s in pre]):
             base = builtins.sum(p[j] * st[j] for j in range(len(pre)))
             for i in norm:
                 b2 = base + i * st[axis]
                 for q in posts:
-                    out_.append(a._d[b2 + q])
+                    out_.append(ad[b2 + q])
         if not rshape:
             return out_[0]
         return ndarray(rshape, a.dtype, out_)
@@ -634,8 +677,11 @@ class ndarray(object):
     def sort(self, axis=-1, kind=None, order=None):
         if self.ndim != 1:
             raise ModelGap("sort N-d")
-        order_ = _argsort(self._d)
-        self._d[:] = [self._d[i] for i in order_]
+        d = self._d
+        order_ = _argsort(d)
+        new = [d[i] for i in order_]
+        for i, v in enumerate(new):
+            self._set(i, v)
 
     def searchsorted(self, v, side='left', sorter=None):
         from ._funcs import searchsorted
@@ -738,7 +784,7 @@ def _is_intlike(k):
 
 
 def _index_map(shape, key):
-    """-> (result shape, flat source offsets, is_scalar)"""
+    """-> (result shape, flat source offsets, is_scalar, is_view (basic indexing only))"""
     if not isinstance(key, tuple):
         key = (key,)
     items = []
@@ -846,7 +892,7 @@ def _index_map(shape, key):
                 off += r[idx[j]] * s
             src.append(off)
         scalar = (len(rshape) == 0 and not has_ell)
-        return tuple(rshape), src, scalar
+        return tuple(rshape), src, scalar, True
     # advanced indexing: ints participate as 0-d arrays
     advpos = [i for i, b in enumerate(bound) if b[0] in ('adv', 'int')]
     bshape = ()
@@ -890,7 +936,7 @@ def _index_map(shape, key):
         for a_off in a_offs:
             for oa in oa_l:
                 src.append(ob + a_off + oa)
-    return rshape, src, False
+    return rshape, src, False, False
 
 
 def _bshape(s1, s2, index=False):
